@@ -87,3 +87,22 @@ reg("C15", "fault_enumeration",
     require={"any": {"faults_executed": 2000, "faults_reached": 2000, "scenarios": 100, "outcome.err": 1000}},
     assumptions=["fail-stop fault model: operation k and every later one return an error without side effect",
                  "each write call is atomic; short transfers are covered by C13, not here"])
+
+reg("C18", "exploration",
+    "cases = (logical archive, start position P, pre-fill, writer): P in {0,1,10,127,128,4096,random<2^20}, pre-fill "
+    "{empty, shorter than P, exactly P, slightly longer, longer than the archive} of sentinel bytes, archives empty/1/small/"
+    "medium/leaf-spilling, 4 codecs, sync and async (with Pending) writers; distinct by fingerprint of (archive,P,pre-fill,api); "
+    "non-trivial = P > 0. Oracle: sentinel bytes before P intact, stream[P..final position] validates with the independent reader "
+    "and addresses exactly the logical content (offsets relative to P), final position = P + archive end.",
+    require={"any": {"validated_at_nonzero_p": 100, "with_leaf_spill": 4, "async_writes": 50}})
+
+reg("C11", "exploration",
+    "cases = (archive, set of ranges): archives library-written (empty/1/small/medium/leaf-spilling) and foreign (directory depth "
+    "1-3, any layout), 4 codecs; per archive ~110 (quick) / ~260 (thorough) ranges covering all 3x3 bound kinds with endpoints "
+    "steered onto 0, 1, leaf first ids +-1, run starts/ends +-1, last id +-1, u64::MAX, the literal forms ..0 ..=0 0..0 .. , "
+    "inverted and empty ranges and random ones; entry points from_bytes_partially (every range) and from_reader_partially / "
+    "from_async_reader_partially / util::read_directories (rotating). Distinct by fingerprint of archive bytes; non-trivial = "
+    "full open has >= 2 tiles. Oracle: the full open of the same bytes filtered with RangeBounds::contains.",
+    require={"any": {"ranges_equal": 5000, "ranges_selecting_strict_subset": 500, "ranges_selecting_nothing": 500,
+                     "archives_with_leaves": 10, "opens_that_skipped_leaf_bytes": 20, "bound_kinds.open-excl": 100,
+                     "bound_kinds.excl-incl": 100}})
